@@ -39,6 +39,28 @@ FlatTree(f) ==
            outerOperands == SubSeq(leaves, 1, f.open - 1) \o <<inner>> \o SubSeq(leaves, f.close + 1, Len(leaves))
            outerOps == SubSeq(f.ops, 1, f.open - 1) \o SubSeq(f.ops, f.close, Len(f.ops))
        IN ConvTree(outerOperands, outerOps)
+\* ---- the grouping the parser actually builds (known finding C13/equal-prec-right, switched on by Dev): parseBinOp's
+\* inner loop re-enters with the SAME minimum precedence when the next operator has equal precedence, so operators of
+\* equal precedence group to the right:  a - b + c  is read  a - (b + c).
+RECURSIVE PB(_, _, _, _, _)
+RECURSIVE Inner(_, _, _, _)
+Inner(lv, ops, op, r) == IF r.i > Len(ops) \/ Prec(ops[r.i]) < Prec(op) THEN r
+                         ELSE LET np == IF Prec(ops[r.i]) > Prec(op) THEN Prec(op) + 1 ELSE Prec(op)
+                              IN Inner(lv, ops, op, PB(lv, ops, r.tr, np, r.i))
+PB(lv, ops, left, mp, i) ==
+  IF i > Len(ops) \/ Prec(ops[i]) < mp THEN [tr |-> left, i |-> i]
+  ELSE LET inner == Inner(lv, ops, ops[i], [tr |-> lv[i + 1], i |-> i + 1])
+       IN PB(lv, ops, [t |-> "binop", op |-> ops[i], a |-> left, b |-> inner.tr], mp, inner.i)
+CodeTree(operands, ops) == PB(operands, ops, operands[1], 0, 1).tr
+Grouping(operands, ops) == IF "EqualPrecRight" \in Dev THEN CodeTree(operands, ops) ELSE ConvTree(operands, ops)
+FlatTreeDev(f) ==
+  LET leaves == [i \in DOMAIN f.operands |-> Leaf(f.operands[i])] IN
+  IF f.open = 0 THEN Grouping(leaves, f.ops)
+  ELSE LET inner == Grouping(SubSeq(leaves, f.open, f.close), SubSeq(f.ops, f.open, f.close - 1))
+           outerOperands == SubSeq(leaves, 1, f.open - 1) \o <<inner>> \o SubSeq(leaves, f.close + 1, Len(leaves))
+           outerOps == SubSeq(f.ops, 1, f.open - 1) \o SubSeq(f.ops, f.close, Len(f.ops))
+       IN Grouping(outerOperands, outerOps)
+
 \* every operand is vector(x): one sample with no labels. Outcomes: "absent" or a number; a comparison that does not
 \* hold yields absent or 0 (left open), so the evaluation is set-valued.
 Absent == [k |-> "absent", n |-> 0, d |-> 1]
@@ -50,15 +72,17 @@ Outcomes(tr) ==
            [] tr.op = "or" -> {IF x.k = "absent" THEN y ELSE x}
            [] tr.op = "unless" -> {IF y.k = "absent" THEN x ELSE Absent}
            [] tr.op \in CmpOps -> IF x.k = "absent" \/ y.k = "absent" THEN {Absent}
+                                  ELSE IF IsOpen(x) \/ IsOpen(y) THEN {Absent, Zero, One}
                                   ELSE IF Holds(tr.op, x, y) THEN {One} ELSE {Absent, Zero}
            [] OTHER -> {IF x.k = "absent" \/ y.k = "absent" THEN Absent ELSE Arith(tr.op, x, y)}
          : y \in Outcomes(tr.b)} : x \in Outcomes(tr.a)}
 
 \* ---- per run
 GridOf(ev) == IF ev.step = 0 THEN {ev.start} ELSE {ev.start + k * ev.step : k \in 0..((ev.end - ev.start) \div ev.step)}
-TopAt(T) == IF flat.on THEN LET outs == Outcomes(FlatTree(flat.f)) IN
-                 [must |-> IF Absent \in outs THEN {} ELSE {}, may |-> {[L |-> {}, v |-> o, sq |-> FALSE] : o \in outs \ {Absent}},
-                  count |-> IF Absent \in outs THEN 0 - 2 ELSE 1]
+TopAt(T) == IF flat.on THEN LET outs == Outcomes(FlatTreeDev(flat.f)) IN
+                 [must |-> {}, may |-> {[L |-> {}, v |-> o, sq |-> FALSE] : o \in outs \ {Absent}},
+                  \* exactly one sample unless the chain may yield nothing (or its value is outside the exact arithmetic)
+                  count |-> IF Absent \in outs \/ \E o \in outs : IsOpen(o) THEN 0 - 2 ELSE 1]
             ELSE EvalTop(expr, ents, T)
 
 Init == TCInit /\ recs = <<>> /\ expr = NoExpr /\ ents = <<>> /\ open = FALSE /\ flat = [on |-> FALSE, f |-> <<>>]
